@@ -85,6 +85,10 @@ def build_arm(arm):
                 log(r.stderr[-4000:]); raise SystemExit(2)
             os.replace(exe + '.tmp', exe)
         out['fuzz'] = exe
+    if arm.get('cli'):
+        cli, n3 = build.build_cli()
+        nreb += n3
+        arm.setdefault('env', {})['VF_ZSTD_CLI'] = cli
     out['build_s'] = round(time.time() - t0, 1)
     out['rebuilt'] = nreb
     return out
